@@ -227,6 +227,66 @@ theorem C07_replaceArgs_idem_single (args : List Arg) (n : NewArg) (hadd : n.add
     · simp only [replaceArgs, matchIdx, hk, if_false, Option.map_none]
       exact congrArg (a :: ·) ih
 
+/-! ### C18 / C07: the edit falsifies a detector that looks at the value of the named keyword -/
+
+theorem replaceArgs_nil_info : ∀ l : List Arg, replaceArgs l [] = l := by
+  intro l; induction l with
+  | nil => rfl
+  | cons b u ihu => simp [replaceArgs, matchIdx, ihu]
+
+/-- keywords of a call are pairwise different (CPython rejects `f(k=1, k=2)`) -/
+def kwNodup (args : List Arg) : Prop := (args.filterMap (·.kw)).Nodup
+
+/-- after the edit every argument carrying the specified keyword has the specified value -/
+theorem C18_replaceArgs_sets (args : List Arg) (n : NewArg) (hd : kwNodup args) :
+    ∀ a ∈ replaceArgs args [n], a.kw = some n.name → a.val = n.value := by
+  induction args with
+  | nil =>
+    intro a ha hk
+    by_cases hadd : n.addIfMissing = true
+    · simp [replaceArgs, hadd, mkKw] at ha; subst ha; rfl
+    · simp [replaceArgs, hadd] at ha
+  | cons b t ih =>
+    intro a ha hk
+    by_cases hb : b.kw = some n.name
+    · simp only [replaceArgs, matchIdx, hb, if_true, List.getD_cons_zero, List.eraseIdx_cons_zero, replaceArgs_nil_info,
+        List.mem_cons] at ha
+      rcases ha with ha | ha
+      · subst ha; rfl
+      · -- an argument of the tail with the same keyword: excluded by `kwNodup`
+        exfalso
+        unfold kwNodup at hd
+        simp only [List.filterMap_cons, hb, List.nodup_cons, List.mem_filterMap] at hd
+        exact hd.1 ⟨a, ha, hk⟩
+    · simp only [replaceArgs, matchIdx, hb, if_false, Option.map_none, List.mem_cons] at ha
+      have hd' : kwNodup t := by
+        unfold kwNodup at hd ⊢
+        cases hbk : b.kw with
+        | none => simpa [List.filterMap_cons, hbk] using hd
+        | some k => simp only [List.filterMap_cons, hbk, List.nodup_cons] at hd; exact hd.2
+      rcases ha with ha | ha
+      · subst ha; exact absurd hk hb
+      · exact ih hd' a ha hk
+
+/-- a detector that flags a call for the value of one keyword (`verify=False`, `shell=True`, …) -/
+def flagged (k : String) (bad : String → Bool) (args : List Arg) : Bool :=
+  args.any fun a => a.kw == some k && bad a.val
+
+/-- **C18 / C07 (argument editor).** If the value the edit writes is not one the detector flags, the
+edited call is not flagged any more — whatever else the call contains. -/
+theorem C18_replaceArgs_not_flagged (args : List Arg) (n : NewArg) (bad : String → Bool)
+    (hd : kwNodup args) (hv : bad n.value = false) : flagged n.name bad (replaceArgs args [n]) = false := by
+  unfold flagged
+  rw [List.any_eq_false]
+  intro a ha
+  by_cases hk : a.kw = some n.name
+  · simp [hk, C18_replaceArgs_sets args n hd a ha hk, hv]
+  · simp [hk]
+
+-- non-vacuity: flagged before, not after
+example : flagged "verify" (· == "False") [⟨none, .none, "url", false⟩, ⟨some "verify", .none, "False", false⟩] = true ∧
+    flagged "verify" (· == "False") (replaceArgs [⟨none, .none, "url", false⟩, ⟨some "verify", .none, "False", false⟩] [⟨"verify", "True", true⟩]) = false := by decide
+
 -- non-vacuity: `requests.get(url, verify=False, **kw)` with spec verify=True
 example : replaceArgs [⟨none, .none, "url", false⟩, ⟨some "verify", .none, "False", false⟩, ⟨none, .two, "kw", false⟩] [⟨"verify", "True", true⟩]
     = [⟨none, .none, "url", false⟩, ⟨some "verify", .none, "True", false⟩, ⟨none, .two, "kw", false⟩] := by decide
